@@ -81,6 +81,9 @@ pub struct OutlineSpec {
 pub struct ClosureSig {
     pub params: String,
     pub ret: String,
+    /// bind the closure to a local before the call that consumes it, so that specifications can name it
+    #[serde(default)]
+    pub bind: bool,
 }
 
 #[derive(Deserialize, Debug)]
